@@ -6,7 +6,7 @@ META = {
     "bounds": {
         "quick": "8 relative shapes of <=2 notes (+ TS/KS/PC events incl. one on the final tick), pitch 60..61 x channel 0..1 "
                  "(same pitch on two channels reachable), waits 1..40, 1-2 symbolic capacities 1..60, velocity 1..127, probe tick symbolic",
-        "thorough": "as quick plus 3-note shapes and 3 capacities, waits 1..60, capacities 1..80",
+        "thorough": "as quick plus 3- and 4-note shapes, 4 events, 3 capacities, waits 1..60, capacities 1..80",
     },
     "outside_claim": ["more than 3 notes / 3 capacities", "ill-formed sources (unclosed notes)", "control change messages"],
     "stubs": ["int() shadowed in scoda modules (identity on SymInt)", "logging disabled"],
@@ -22,6 +22,8 @@ SHAPES = {
     "evend": [("ON", 0), "W", ("OFF", 0), "W", ("TS", 6, 8)],
     "evmid": [("ON", 0), "W", ("TS", 6, 8), ("KS", KEYS[9]), "W", ("OFF", 0), ("PC", 2), "W"],
     "n3": [("ON", 0), "W", ("ON", 1), "W", ("OFF", 0), ("ON", 2), "W", ("OFF", 1), "W", ("OFF", 2), "W"],
+    "n4": [("ON", 0), "W", ("ON", 1), "W", ("OFF", 0), ("ON", 2), "W", ("OFF", 1), ("ON", 3), "W", ("OFF", 2), "W", ("OFF", 3), "W"],
+    "ev3": [("TS", 3, 4), "W", ("KS", KEYS[3]), ("ON", 0), "W", ("PC", 5), "W", ("OFF", 0), ("TS", 4, 4), "W", ("KS", KEYS[5])],
     "n3sim": [("ON", 0), ("ON", 1), ("ON", 2), "W", ("OFF", 0), "W", ("OFF", 1), ("OFF", 2)],
 }
 
@@ -85,7 +87,10 @@ def queries(tier, seed):
     else:
         for s in SHAPES:
             for nc in (1, 2, 3):
-                if nc == 3 and s in ("n3", "n3sim"):
+                if nc == 3 and s in ("n3", "n3sim", "n4"):
+                    continue
+                if s == "n4" and nc == 2:
+                    qs.append(q_split(s, nc, 20, 60))
                     continue
                 qs.append(q_split(s, nc, 60, 80))
     return qs
